@@ -321,8 +321,6 @@ Qed.
 
 (* ------------------------------------------------------------------ normal forms of step *)
 
-Definition passed (p : put) : bool := p_res p && deps_ok (p_deps p).
-
 Lemma step_put c s p :
   step c s (Put p) =
   if passed p
@@ -391,9 +389,6 @@ Definition writes (o : op) (t d : N) : Prop :=
   | DupPut t' d' _ _ _ => t' = t /\ d' = d
   | _ => False
   end.
-
-Definition is_bkset (o : op) (t : N) : bool :=
-  match o with BkSet t' _ => t' =? t | _ => false end.
 
 Record step_rel (c : cfg) (o : op) (s s1 : st) : Prop := mk_sr {
   (* other tags are untouched *)
@@ -536,6 +531,18 @@ Proof.
     + rewrite E in H. injection H as ->. exists o. split; [apply in_or_app; right; left; reflexivity|assumption].
 Qed.
 
+Lemma writes_b o t d : writes o t d <-> writesb o t d = true.
+Proof.
+  destruct o; cbn [writes writesb]; try (split; [contradiction|discriminate]).
+  - unfold passed. rewrite !andb_true_iff, !N.eqb_eq. tauto.
+  - rewrite andb_true_iff, !N.eqb_eq. tauto.
+Qed.
+
+Lemma put_for_b t d ops : put_for t d ops <-> put_forb t d ops = true.
+Proof.
+  unfold put_for, put_forb. rewrite existsb_exists. split; intros [o [I W]]; exists o; (split; [exact I|]); apply writes_b; exact W.
+Qed.
+
 Lemma get_of_disk c s t f d :
   aget t (disk s) = Some d -> snd (step c s (Get t f)) = mkout ROk (Some d) [] [] (snap_of s t).
 Proof. intros H. unfold step, store_get. rewrite H. reflexivity. Qed.
@@ -559,7 +566,7 @@ Qed.
 Theorem stable c ops1 p :
   let s1 := fst (run c init ops1) in
   o_res (snd (step c s1 (Put p))) = ROk ->
-  exists d, put_for (p_tag p) d (ops1 ++ [Put p]) /\
+  exists d, put_forb (p_tag p) d (ops1 ++ [Put p]) = true /\
     forall ops2,
       aget (p_tag p) (disk (fst (run c (fst (step c s1 (Put p))) ops2))) = Some d /\
       forall i f, nth_error ops2 i = Some (Get (p_tag p) f) ->
@@ -569,7 +576,7 @@ Proof.
   intros s1 H. pose proof (put_ok_disk _ _ _ H) as D.
   destruct (aget (p_tag p) (disk (fst (step c s1 (Put p))))) as [d|] eqn:E; [clear D|congruence].
   exists d. split.
-  - apply (disk_origin c). rewrite run_snoc_state. exact E.
+  - apply put_for_b. apply (disk_origin c). rewrite run_snoc_state. exact E.
   - intros ops2. split; [apply disk_mono_run; exact E|].
     intros i f Hi. eexists. split; [apply run_nth; exact Hi|].
     rewrite (get_of_disk c _ _ f d); [split; reflexivity|]. apply disk_mono_run. exact E.
@@ -585,8 +592,6 @@ Proof. apply disk_mono_step. Qed.
 
 Definition bk_consistent (s : st) (t : N) : Prop :=
   forall b, aget t (bk s) = Some b -> exists d, aget t (disk s) = Some d /\ b = CDig d.
-
-Definition bkset_free (t : N) (ops : list op) : bool := forallb (fun o => negb (is_bkset o t)) ops.
 
 Lemma bk_consistent_step c s o t :
   is_bkset o t = false -> bk_consistent s t -> bk_consistent (fst (step c s o)) t.
@@ -950,22 +955,22 @@ Proof.
     cbn zeta in Cf, Cs.
     destruct (o_res r) eqn:Res.
     + (* 200 *)
-      cbv iota. specialize (Cs (F1 eq_refl)). apply andb_true_iff in F1; [|reflexivity]. destruct F1 as [P _]. rewrite P in *.
+      cbv iota. clear Cf. specialize (Cs (F1 eq_refl)). apply andb_true_iff in F1; [|reflexivity]. destruct F1 as [P _]. rewrite P in *.
       cbn [k_puts k_succ k_fix k_env] in *.
       destruct (cl_resolved _ (sn_disk (snap_of s' (p_tag p)))) as [b fx] eqn:R. cbn [fst snd].
-      destruct (Cs b fx R) as [C1 C2]. split; [|exact C2].
+      destruct (Cs b fx eq_refl) as [C1 C2]. split; [|exact C2].
       apply andb_true_iff in C1. destruct C1 as [-> ->]. reflexivity.
-    + cbv iota. destruct (cl_resolved _ (sn_disk (snap_of s' (p_tag p)))) as [b fx] eqn:R. cbn [fst snd].
-      destruct (Cf b fx R) as [C1 C2]. split; [|exact C2]. rewrite C1. cbn [andb].
+    + cbv iota. clear Cs. destruct (cl_resolved _ (sn_disk (snap_of s' (p_tag p)))) as [b fx] eqn:R. cbn [fst snd].
+      destruct (Cf b fx eq_refl) as [C1 C2]. split; [|exact C2]. rewrite C1. cbn [andb].
       destruct (passed p); [destruct (o_nb r), (o_rep r); reflexivity|]. destruct (F2 eq_refl) as [-> ->]. reflexivity.
-    + cbv iota. destruct (cl_resolved _ (sn_disk (snap_of s' (p_tag p)))) as [b fx] eqn:R. cbn [fst snd].
-      destruct (Cf b fx R) as [C1 C2]. split; [|exact C2]. rewrite C1. cbn [andb].
+    + cbv iota. clear Cs. destruct (cl_resolved _ (sn_disk (snap_of s' (p_tag p)))) as [b fx] eqn:R. cbn [fst snd].
+      destruct (Cf b fx eq_refl) as [C1 C2]. split; [|exact C2]. rewrite C1. cbn [andb].
       destruct (passed p); [destruct (o_nb r), (o_rep r); reflexivity|]. destruct (F2 eq_refl) as [-> ->]. reflexivity.
-    + cbv iota. destruct (cl_resolved _ (sn_disk (snap_of s' (p_tag p)))) as [b fx] eqn:R. cbn [fst snd].
-      destruct (Cf b fx R) as [C1 C2]. split; [|exact C2]. rewrite C1. cbn [andb].
+    + cbv iota. clear Cs. destruct (cl_resolved _ (sn_disk (snap_of s' (p_tag p)))) as [b fx] eqn:R. cbn [fst snd].
+      destruct (Cf b fx eq_refl) as [C1 C2]. split; [|exact C2]. rewrite C1. cbn [andb].
       destruct (passed p); [destruct (o_nb r), (o_rep r); reflexivity|]. destruct (F2 eq_refl) as [-> ->]. reflexivity.
-    + cbv iota. destruct (cl_resolved _ (sn_disk (snap_of s' (p_tag p)))) as [b fx] eqn:R. cbn [fst snd].
-      destruct (Cf b fx R) as [C1 C2]. split; [|exact C2]. rewrite C1. cbn [andb].
+    + cbv iota. clear Cs. destruct (cl_resolved _ (sn_disk (snap_of s' (p_tag p)))) as [b fx] eqn:R. cbn [fst snd].
+      destruct (Cf b fx eq_refl) as [C1 C2]. split; [|exact C2]. rewrite C1. cbn [andb].
       destruct (passed p); [destruct (o_nb r), (o_rep r); reflexivity|]. destruct (F2 eq_refl) as [-> ->]. reflexivity.
   - (* DupPut *)
     unfold chk_tag. rewrite Sn.
@@ -978,16 +983,18 @@ Proof.
     { intros ->. destruct (store_put_ok _ _ _ _ _ _ _ _ E) as [A [B C]]. rewrite snap_of_eq. cbn [sn_disk sn_bk sn_task]. auto. }
     cbn zeta in Cf, Cs. cbn [k_puts k_succ k_fix k_env] in *.
     destruct ok.
-    + cbv iota. destruct (cl_resolved _ (sn_disk (snap_of s1 t))) as [b fx] eqn:R. cbn [fst snd].
-      destruct (Cs eq_refl b fx R) as [C1 C2]. split; assumption.
-    + cbv iota. destruct (cl_resolved _ (sn_disk (snap_of s1 t))) as [b fx] eqn:R. cbn [fst snd].
-      destruct (Cf b fx R) as [C1 C2]. split; assumption.
+    + cbv iota. clear Cf. specialize (Cs eq_refl). destruct (cl_resolved _ (sn_disk (snap_of s1 t))) as [b fx] eqn:R. cbn [fst snd].
+      destruct (Cs b fx eq_refl) as [C1 C2]. split; assumption.
+    + cbv iota. clear Cs. destruct (cl_resolved _ (sn_disk (snap_of s1 t))) as [b fx] eqn:R. cbn [fst snd].
+      destruct (Cf b fx eq_refl) as [C1 C2]. split; assumption.
   - (* Get *)
     rewrite (step_reads c s (Get t f) eq_refl) in *. unfold chk_tag. rewrite Sn.
-    destruct (cl_resolved x _) as [b fx] eqn:R. cbn [fst snd].
-    destruct (cl_resolved_sound c (snap_of s t) x _ b fx I) with (2 := R) as [-> Hf].
-    { intros S. pose proof (ti_succ _ _ _ I S) as D. rewrite snap_of_eq in D |- *. cbn [sn_disk] in *.
+    set (dv := match o_res (snd (step c s (Get t f))) with ROk => o_dig (snd (step c s (Get t f))) | _ => None end).
+    assert (Hd : k_succ x = true -> dv = sn_disk (snap_of s t)).
+    { intros S. pose proof (ti_succ _ _ _ I S) as D. unfold dv. rewrite snap_of_eq in D |- *. cbn [sn_disk] in *.
       destruct (aget t (disk s)) as [d|] eqn:E; [|congruence]. rewrite (get_of_disk c s t f d E). reflexivity. }
+    destruct (cl_resolved x dv) as [b fx] eqn:R. cbn [fst snd].
+    destruct (cl_resolved_sound c _ x dv b fx I Hd R) as [-> Hf].
     split; [cbn [andb]; apply cl_pending_sound; exact I|apply TI_set_fix; assumption].
   - (* Has *)
     rewrite (step_reads c s (Has t f) eq_refl) in *. unfold chk_tag. rewrite Sn. cbn [fst snd].
@@ -996,11 +1003,12 @@ Proof.
     rewrite (step_reads c s (Repl t f r ok) eq_refl) in *. unfold chk_tag.
     destruct (o_rep (snd (step c s (Repl t f r ok)))) as [|d0 l] eqn:Rep.
     + cbn [fst snd]. split; [reflexivity|]. apply (TI_set_fix _ _ x); auto.
-    + destruct (cl_resolved x (Some d0)) as [b fx] eqn:R. cbn [fst snd].
-      destruct (cl_resolved_sound c (snap_of s t) x _ b fx I) with (2 := R) as [-> Hf].
+    + assert (Hd : k_succ x = true -> Some d0 = sn_disk (snap_of s t)).
       { intros S. pose proof (ti_succ _ _ _ I S) as D. rewrite snap_of_eq in D |- *. cbn [sn_disk] in *.
         destruct (aget t (disk s)) as [d|] eqn:E; [|congruence].
         destruct (repl_of_disk c s t f r ok d E) as [K|K]; rewrite K in Rep; [discriminate|]. injection Rep as -> _. reflexivity. }
+      destruct (cl_resolved x (Some d0)) as [b fx] eqn:R. cbn [fst snd].
+      destruct (cl_resolved_sound c _ x _ b fx I Hd R) as [-> Hf].
       split; [reflexivity|apply TI_set_fix; assumption].
   - (* Exec *)
     unfold chk_tag. rewrite Sn.
@@ -1016,7 +1024,7 @@ Proof.
     assert (D : aget t (disk s) <> None).
     { pose proof (ti_task _ _ _ I) as K. rewrite snap_of_eq in K. cbn [sn_task sn_disk] in K. auto. }
     apply cl_backend_sound; [exact I1| |].
-    + pose proof (lt_disk _ _ _ _ _ L) as Ld. rewrite !snap_of_eq in Ld |- *. cbn [sn_disk] in *.
+    + pose proof (lt_disk _ _ _ _ _ L) as Ld. unfold snap_of in Ld |- *. cbn [sn_disk] in Ld |- *.
       destruct Ld as [E|[E _]]; congruence.
     + intros Ns. rewrite snap_of_eq. cbn [sn_bk]. auto.
   - (* BkSet *)
@@ -1024,4 +1032,189 @@ Proof.
     eapply (TI_preserved c _ _ x None _ (k_puts x) (k_succ x) true L I); auto; discriminate.
   - (* Bad *)
     rewrite (step_reads c s (Bad k t) eq_refl) in *. unfold chk_tag. cbn [fst snd]. auto.
+Qed.
+
+Lemma tk_upd k t x b t' : tk (upd_tk k t x b) t' = if t =? t' then x else tk k t'.
+Proof. unfold tk, upd_tk, aset. cbn [k_tags aget]. destruct (t =? t'); reflexivity. Qed.
+
+Definition GI (c : cfg) (s : st) (k : chk) : Prop :=
+  k_ok k = true /\ forall t, TI c (snap_of s t) (tk k t).
+
+Lemma snap_frame c s o t : t <> op_tag o -> snap_of (fst (step c s o)) t = snap_of s t.
+Proof.
+  intros H. destruct (sr_frame _ _ _ _ (step_step_rel c s o) t H) as [A [B C]].
+  rewrite !snap_of_eq. rewrite A, B, C. reflexivity.
+Qed.
+
+Lemma GI_step c s k o : GI c s k -> GI c (fst (step c s o)) (chk_step c k o (snd (step c s o))).
+Proof.
+  intros [Ok I]. unfold chk_step.
+  destruct (chk_tag_sound c s o (tk k (op_tag o)) (I (op_tag o))) as [B T].
+  destruct (chk_tag c (tk k (op_tag o)) o (snd (step c s o))) as [x b]. cbn [fst snd] in *. subst b.
+  split.
+  - unfold upd_tk. cbn [k_ok]. rewrite Ok. reflexivity.
+  - intros t. rewrite tk_upd. destruct (op_tag o =? t) eqn:E.
+    + apply N.eqb_eq in E. subst t. exact T.
+    + apply N.eqb_neq in E. rewrite snap_frame; [apply I|congruence].
+Qed.
+
+Lemma GI_init c : GI c init chk0.
+Proof.
+  split; [reflexivity|]. intros t. constructor; cbn; try discriminate; try congruence.
+Qed.
+
+Lemma GI_run c ops : forall s k, GI c s k -> k_ok (chk_run c k ops (snd (run c s ops))) = true.
+Proof.
+  induction ops as [|o ops IH]; intros s k G; cbn [run].
+  - cbn. apply G.
+  - pose proof (GI_step c s k o G) as G1. destruct (step c s o) as [s1 r]. cbn [fst snd] in G1.
+    specialize (IH s1 _ G1). destruct (run c s1 ops) as [s2 rs]. cbn [snd chk_run] in *. exact IH.
+Qed.
+
+(* the property, in its executable form, holds of every history of the model *)
+Theorem check_sound c ops : C32_check c ops (snd (run c init ops)) = true.
+Proof. unfold C32_check. apply GI_run. apply GI_init. Qed.
+
+(* ------------------------------------------------------------------ what does not hold *)
+
+Definition hput (t d : N) : op := Put (mkput t d true [AFound] F0 [mkea false UOk] true false true).
+
+(* the backend already holds another digest for the tag (another node put it): the PUT answers
+   200, the node resolves the tag to 1, the backend keeps 2 — also after the write-back ran *)
+Lemma preexisting_backend_refuted :
+  exists c ops, c_ns c = true /\
+    let '(s, outs) := run c init ops in
+    map o_res outs = [ROk; ROk; ROk; ROk] /\ aget 0 (disk s) = Some 1 /\ aget 0 (bk s) = Some (CDig 2).
+Proof.
+  exists (mkcfg WriteThrough 3 true), [BkSet 0 (CDig 2); hput 0 1; Get 0 false; Has 0 false].
+  vm_compute. repeat split; reflexivity.
+Qed.
+
+Lemma preexisting_backend_async_refuted :
+  exists c ops, c_ns c = true /\
+    let '(s, outs) := run c init ops in
+    map o_res outs = [ROk; ROk; ROk; ROk] /\ aget 0 (disk s) = Some 1 /\ aget 0 (bk s) = Some (CDig 2) /\
+    Retry.storedb 0 (tasks s) = false.
+Proof.
+  exists (mkcfg Async 3 true), [BkSet 0 (CDig 2); hput 0 1; Exec 0 (mkea false UOk); Get 0 false].
+  vm_compute. repeat split; reflexivity.
+Qed.
+
+(* no backend configured for the tag's namespace: the write-back is dropped, the PUT answers 200 *)
+Lemma no_backend_refuted :
+  exists c ops, c_ns c = false /\
+    let '(s, outs) := run c init ops in map o_res outs = [ROk] /\ aget 0 (bk s) = None.
+Proof. exists (mkcfg WriteThrough 3 false), [hput 0 1]. vm_compute. repeat split; reflexivity. Qed.
+
+(* "a digest that was put for it" cannot be strengthened to "a digest whose PUT succeeded": a PUT
+   that failed after its disk write (backend down in write-through mode) decides what a later,
+   successful PUT of another digest resolves to *)
+Lemma resolved_digest_of_failed_put :
+  exists c ops,
+    let outs := snd (run c init ops) in
+    map o_res outs = [RFail; ROk; ROk] /\ map o_dig outs = [None; None; Some 1].
+Proof.
+  exists (mkcfg WriteThrough 2 true),
+         [Put (mkput 0 1 true [AFound] F0 [mkea false UErr; mkea false UErr] true false true); hput 0 2; Get 0 false].
+  vm_compute. split; reflexivity.
+Qed.
+
+(* before any put on this node GET answers what the backend holds; a later put of another digest
+   then changes the answer (the tag was not stored on the node before) *)
+Lemma backend_answer_not_pinned :
+  exists c ops, map o_dig (snd (run c init ops)) = [None; Some 2; None; Some 1].
+Proof.
+  exists (mkcfg WriteThrough 3 true), [BkSet 0 (CDig 2); Get 0 false; hput 0 1; Get 0 false].
+  vm_compute. reflexivity.
+Qed.
+
+(* re-put of another digest: 200, the neighbour is told the new digest, the node keeps the old *)
+Lemma reput_keeps_first :
+  exists c ops,
+    let outs := snd (run c init ops) in
+    map o_res outs = [ROk; ROk; ROk] /\ map o_nb outs = [[1]; [2]; []] /\ map o_dig outs = [None; None; Some 1].
+Proof.
+  exists (mkcfg Async 3 true), [hput 0 1; hput 0 2; Get 0 false].
+  vm_compute. repeat split; reflexivity.
+Qed.
+
+(* ------------------------------------------------------------------ further consequences *)
+
+(* stability does not depend on who stored the tag (PUT, duplicate put, a put that failed later):
+   once a digest is on the node every continuation keeps it and every GET answers it *)
+Theorem stable_once_stored c s t d :
+  aget t (disk s) = Some d ->
+  forall ops2,
+    aget t (disk (fst (run c s ops2))) = Some d /\
+    forall i f, nth_error ops2 i = Some (Get t f) ->
+      exists o, nth_error (snd (run c s ops2)) i = Some o /\ o_res o = ROk /\ o_dig o = Some d.
+Proof.
+  intros E ops2. split; [apply disk_mono_run; exact E|].
+  intros i f Hi. eexists. split; [apply run_nth; exact Hi|].
+  rewrite (get_of_disk c _ _ f d); [split; reflexivity|]. apply disk_mono_run. exact E.
+Qed.
+
+(* a replication task created for a stored tag carries the digest the node resolves it to *)
+Theorem replicate_uses_resolved c s t f r ok d :
+  aget t (disk s) = Some d -> forall x, In x (o_rep (snd (step c s (Repl t f r ok)))) -> x = d.
+Proof.
+  intros E x Hx. destruct (repl_of_disk c s t f r ok d E) as [K|K]; rewrite K in Hx; cbn in Hx; [contradiction|].
+  destruct Hx as [<-|[]]. reflexivity.
+Qed.
+
+(* and a PUT with ?replicate=true replicates only after it stored the tag, with its own digest *)
+Theorem put_replicates_after_store c s p x :
+  In x (o_rep (snd (step c s (Put p))) ++ o_nb (snd (step c s (Put p)))) ->
+  x = p_dig p /\ passed p = true /\ aget (p_tag p) (disk (fst (step c s (Put p)))) <> None.
+Proof.
+  rewrite step_put. destruct (passed p); [|cbn; contradiction].
+  destruct (store_put c s (p_tag p) (p_dig p) false (p_fs p) (p_ex p)) as [s1 ok] eqn:E. cbn [fin snd fst o_rep o_nb].
+  destruct ok; [|cbn; contradiction]. intros Hx.
+  assert (X : x = p_dig p).
+  { apply in_app_or in Hx. destruct Hx as [Hx|Hx].
+    - destruct (true && p_rep p && p_repok p); cbn in Hx; [destruct Hx as [<-|[]]; reflexivity|contradiction].
+    - cbn in Hx. destruct Hx as [<-|[]]. reflexivity. }
+  split; [exact X|]. split; [reflexivity|]. apply store_put_ok in E. apply E.
+Qed.
+
+(* interface to the retry manager's model (K.Model.Retry, C30): the task table moves only by the
+   store operations of that model, and a task leaves the table only when the executor's verdict
+   for it was success (Retry.OpExecRet t true; OpExecFin t) *)
+Theorem task_table_moves c s o :
+  let ts := tasks s in
+  let ts' := tasks (fst (step c s o)) in
+  ts' = ts \/
+  (exists st d, Retry.add_row (op_tag o) st d 0 ts = Some ts') \/
+  (exists t a, o = Exec t a /\ Retry.storedb t ts = true /\
+     ts' = (if snd (exec_once c s t a) then Retry.remove_row t ts else Retry.mark_failed t 0 ts)).
+Proof.
+  cbn zeta.
+  assert (SP : forall t d dl f ex, let s1 := fst (store_put c s t d dl f ex) in
+               tasks s1 = tasks s \/ exists st d0, Retry.add_row t st d0 0 (tasks s) = Some (tasks s1)).
+  { intros t d dl f ex. cbn zeta. unfold store_put.
+    destruct (disk_add_rest t d s) as [_ Ts].
+    destruct f; cbn [fst]; [|left; reflexivity|left; exact Ts].
+    destruct (c_mode c).
+    - left. destruct (sync_exec c (disk_add t d s) t (firstn (N.to_nat (c_att c)) ex)) as [s1 ok] eqn:E.
+      apply sync_exec_rel in E. cbn [fst]. rewrite (er_tasks _ _ _ _ _ E). exact Ts.
+    - rewrite Ts. destruct (Retry.add_row t _ _ 0 (tasks s)) as [ts1|] eqn:A; cbn [fst with_tasks tasks].
+      + right. eexists. eexists. exact A.
+      + left. exact Ts. }
+  destruct o.
+  - rewrite step_put. destruct (passed p); [|left; reflexivity].
+    specialize (SP (p_tag p) (p_dig p) false (p_fs p) (p_ex p)). cbn zeta in SP.
+    destruct (store_put c s (p_tag p) (p_dig p) false (p_fs p) (p_ex p)) as [s1 ok]. cbn [fin fst] in *.
+    destruct SP as [SP|SP]; [left; exact SP|right; left; exact SP].
+  - specialize (SP t d delayed f ex). cbn zeta in SP. unfold step.
+    destruct (store_put c s t d delayed f ex) as [s1 ok]. cbn [fin fst] in *.
+    destruct SP as [SP|SP]; [left; exact SP|right; left; exact SP].
+  - rewrite step_reads by reflexivity. left. reflexivity.
+  - rewrite step_reads by reflexivity. left. reflexivity.
+  - rewrite step_reads by reflexivity. left. reflexivity.
+  - rewrite step_exec. destruct (Retry.storedb t (tasks s)) eqn:St; [|left; reflexivity].
+    right. right. exists t, a. split; [reflexivity|]. split; [exact St|].
+    destruct (exec_once c s t a) as [s1 ok] eqn:E. cbn [fin fst with_tasks tasks snd].
+    apply exec_once_rel in E. rewrite (er_tasks _ _ _ _ _ E). reflexivity.
+  - left. reflexivity.
+  - rewrite step_reads by reflexivity. left. reflexivity.
 Qed.
